@@ -1,5 +1,6 @@
 import MJ.Proofs.Depth
 import MJ.Proofs.DepthHop
+import MJ.Proofs.DepthAmb
 /-!
 # C11 — run-time recursion is cut off by the recursion limit, never by the stack
 
@@ -886,5 +887,321 @@ theorem include_candidates_charged_once (s : St) (n : Nat) (evs : List Ev) :
 
 example : run (init 25) [.missingInclude, .enter .includeTpl, .missingInclude, .missingInclude,
     .enter .includeTpl, .missingInclude, .enter .includeTpl] = .recursionError := by decide
+
+/-! ## Session 4: the charge of an edge depends on nothing but the edge -/
+
+/-- **the charge of every edge is independent of the output state, the auto-escape setting, the
+    undefined behaviour, the capture depth and the fuel.**  `enterA amb` is the re-entry computed
+    from the REGENERATED cost expressions (`MJ.Gen.costSites`: the arguments of every `push_frame` /
+    `incr_depth` / `decr_depth` call of the crate outside `Context`, term by term) evaluated in an
+    ambient state `amb`; a term that is not a constant, a frame or the caller's depth reads its
+    value from `amb`.  (1) every term of the table is closed, (2) therefore `enterA` is the same in
+    any two ambient states, for every accounting state and every kind — proved from (1) alone,
+    whatever the constants are —, (3) with the current constants `enterA` IS the model's `enter`,
+    so every theorem above is a theorem about the charges the source expressions compute, (4) what
+    a completed include releases is what it charged.  A cost expression that mentions anything else
+    (`if out.is_discarding() { 1 } else { COST }`, a weight computed from the arguments, …) makes a
+    term `opaque` and breaks (1). -/
+theorem edge_cost_state_independent :
+    (∀ r ∈ costSites, ∀ t ∈ r.2.2.2.2.1, termClosed t = true) ∧
+    (∀ (amb amb' : Amb) (s : St) (k : Kind), enterA amb s k = enterA amb' s k) ∧
+    (∀ (amb : Amb) (s : St) (k : Kind), enterA amb s k = step s (.enter k)) ∧
+    termsOf "perform_include" "decr_depth" = termsOf "perform_include" "incr_depth" :=
+  ⟨costSites_closed, enterA_indep_of_closed costSites_closed, enterA_eq_enter,
+    termsOf_include_decr.trans termsOf_include_incr.symm⟩
+
+/-- non-vacuity: an opaque term WOULD make the charge depend on the ambient state -/
+example : ∃ amb amb' : Amb, evalTerms amb 7 [("opaque", "weight", 0)] ≠ evalTerms amb' 7 [("opaque", "weight", 0)] :=
+  ⟨⟨false, 0, 0, 0, none, fun _ => 0⟩, ⟨true, 1, 1, 3, some 5, fun _ => 4⟩, by decide⟩
+
+example : enterA ⟨true, 3, 1, 3, some 0, fun _ => 99⟩ ⟨500, ⟨20, 3⟩, []⟩ .includeTpl =
+    .ok ⟨500, ⟨20 + includeRecursionCost, 3⟩, [⟨.includeTpl, ⟨20, 3⟩, 3⟩]⟩ := by decide
+
+/-- **no charge sits under a condition on the ambient state**: the regenerated table of the
+    conditions (`if` / `match` headers and match arms; loops and closures are listed so that moving
+    a call changes the table) that enclose each depth operation inside its function is the expected
+    one, and none of the identifiers of those conditions is a name under which the code reads the
+    output, the auto-escape setting, the undefined behaviour or the fuel.  The charges of
+    `eval_macro`, `perform_include`, `perform_super` and `push_loop` are unconditional; the frame of
+    `call_block` is pushed for every block that exists; `PushWith` is one arm of the instruction
+    dispatch. -/
+theorem cost_sites_unconditional :
+    costSites.map (fun r => (r.2.2.1, r.2.2.2.1, r.2.2.2.2.2.1)) = [
+      ("eval_macro", "push_frame", []),
+      ("eval_macro", "incr_depth", []),
+      ("eval_impl", "push_frame", ["loop:loop", "match instr", "arm:Instruction::PushWith"]),
+      ("perform_include", "incr_depth", ["loop:for choice in choices"]),
+      ("perform_include", "decr_depth", ["loop:for choice in choices"]),
+      ("perform_super", "push_frame", []),
+      ("call_block", "push_frame", ["if let Some((name, block_stack)) = state.blocks.get_key_value(name)", "closure"]),
+      ("push_loop", "push_frame", [])] ∧
+    (∀ r ∈ costSites, ∀ g ∈ r.2.2.2.2.2.2, g ∉ ambientNames) := by
+  refine ⟨by decide, by decide⟩
+
+example : costSites.length = 8 ∧ "out" ∈ ambientNames ∧ "fuel_tracker" ∈ ambientNames := by decide
+
+/-! ## Session 4: the empty state (`Template::new_state` + `State::render_block` / `call_macro`) -/
+
+/-- states reachable from the empty state (`Context::new`: no frame; no root activation) -/
+inductive ReachE (L : Nat) : St → Prop where
+  | init : ReachE L (initEmpty L)
+  | step {s s' : St} {e : Ev} : ReachE L s → step s e = .ok s' → ReachE L s'
+
+theorem reachE_inv {L : Nat} {s : St} (h : ReachE L s) : Inv0 s ∧ s.limit = L := by
+  induction h with
+  | init => exact ⟨inv0_initEmpty L, rfl⟩
+  | step _ hs ih =>
+    obtain ⟨h1, h2⟩ := inv0_step ih.1 hs
+    exact ⟨h1, h2.trans ih.2⟩
+
+/-- **a block or macro entered from Rust on an empty state is accounted like any other**: from
+    `Template::new_state()` (a context without a frame, no root activation) every re-entry is
+    charged its full cost from depth 0: the weighted nesting and the number of native activations
+    stay within the limit itself (no root activation to add), returning restores the caller's
+    context, nothing panics, and a run with at least `L + 1` pending re-entries cannot complete;
+    entering costs exactly what it costs in a render (`enter` is the same function).  Compared with a
+    render of the same program every depth is one less: the limit admits one more unit. -/
+theorem empty_state_accounting (L : Nat) (evs : List Ev) :
+    run (initEmpty L) evs ≠ .panic ∧
+    (∀ s, run (initEmpty L) evs = .ok s →
+      ReachE L s ∧ wsum s.acts ≤ s.cur.depth ∧ wsum s.acts ≤ L ∧ s.acts.length ≤ L) ∧
+    (∀ s a rest, ReachE L s → s.acts = a :: rest → step s .leave = .ok { s with cur := a.old, acts := rest }) := by
+  have hrun : ∀ (evs : List Ev) {s s' : St}, ReachE L s → run s evs = .ok s' → ReachE L s' := by
+    intro evs
+    induction evs with
+    | nil => intro s s' h hr; simp only [run] at hr; injection hr with hr; subst hr; exact h
+    | cons e es ih =>
+      intro s s' h hr
+      simp only [run] at hr
+      cases hs : MJ.Depth.step s e with
+      | ok s1 => rw [hs] at hr; exact ih (ReachE.step h hs) hr
+      | recursionError => rw [hs] at hr; cases hr
+      | panic => rw [hs] at hr; cases hr
+      | stuck => rw [hs] at hr; cases hr
+  refine ⟨(run_inv0 evs (inv0_initEmpty L)).1, ?_, ?_⟩
+  · intro s hr
+    have hre := hrun evs ReachE.init hr
+    obtain ⟨⟨hc, hd⟩, hl⟩ := reachE_inv hre
+    have hw := wsum_le_depth0 hc
+    have hlen := length_le_wsum s.acts
+    rw [hl] at hd
+    exact ⟨hre, hw, by omega, by omega⟩
+  · intro s a rest hs ha
+    exact leave_restores0 (reachE_inv hs).1 ha
+
+/-- `State::render_block` on an empty state at limit 3: three nested blocks fit (a render admits two) -/
+example : (∃ s, run (initEmpty 3) [.enter .blockCall, .enter .blockCall, .enter .blockCall] = .ok s) ∧
+    run (initEmpty 3) (List.replicate 4 (.enter .blockCall)) = .recursionError ∧
+    run (init 3) (List.replicate 3 (.enter .blockCall)) = .recursionError := by
+  refine ⟨⟨_, rfl⟩, by decide, by decide⟩
+
+/-! ## Session 4: renders started by Rust callbacks inside a render -/
+
+/-- **a render started from inside a render has a budget of its own, and the total is the product**:
+    a Rust callback that calls `Template::render` (`Expression::eval`, `render_str`, …) creates a new
+    root: (1) its context starts at depth 1 whatever the depth of the render below it, with the
+    limit of the environment it renders with; (2) in every state a nest of renders reaches, each
+    render on the native stack satisfies the accounting invariant of a single render, so with `R`
+    renders on the stack and every limit `≤ M`: weighted nesting `≤ R × M`, native activations
+    `≤ R × max M 1`, and for frame sizes with at most `ρ` bytes per depth unit the activations need
+    at most `ρ × R × M` bytes; (3) nothing panics.  The library bounds each factor `M`, not the number
+    `R` of renders the embedder's callbacks nest: with `R` unbounded the native stack is unbounded
+    (outside the property: its recursions are the template-level ones). -/
+theorem nested_renders_bounded (L M : Nat) (hL : L ≤ M) (evs : List EvN) (hf : freshLE M evs) :
+    (∀ n l, stepN n (.fresh l) = .stuck ∨ stepN n (.fresh l) = .ok (init l :: n)) ∧
+    runN [init L] evs ≠ .panic ∧
+    ∀ n, runN [init L] evs = .ok n →
+      wsumN n ≤ n.length * M ∧ nativeDepthN n ≤ n.length * max M 1 ∧
+      ∀ (bytes : Kind → Nat) (ρ : Nat), (∀ k, bytes k ≤ ρ * cost k) →
+        stackBytesN bytes n ≤ ρ * (n.length * M) := by
+  have hi0 : NestInv [init L] := by
+    intro s hs
+    simp only [List.mem_cons, List.not_mem_nil, or_false] at hs
+    subst hs
+    exact inv_init L
+  have hl0 : limitsLE M [init L] := by
+    intro s hs
+    simp only [List.mem_cons, List.not_mem_nil, or_false] at hs
+    subst hs
+    exact hL
+  obtain ⟨hp, hok⟩ := runN_inv evs hi0 hl0 hf
+  refine ⟨?_, hp, ?_⟩
+  · intro n l
+    cases n with
+    | nil => exact Or.inl rfl
+    | cons s rest => exact Or.inr rfl
+  · intro n hr
+    obtain ⟨hi, hl⟩ := hok n hr
+    obtain ⟨h1, h2⟩ := wsumN_le n hi hl
+    refine ⟨h1, h2, ?_⟩
+    intro bytes ρ hρ
+    exact Nat.le_trans (stackBytesN_le bytes ρ hρ n) (Nat.mul_le_mul_left ρ h1)
+
+/-- a macro recursion near the limit, a callback that renders another template at limit 10, a
+    block cycle there: the inner render is cut at ITS limit, counted from depth 1 -/
+example : runN [init 500] ((List.replicate 80 (.ev (.enter .macroCall))) ++ [.fresh 10] ++
+      List.replicate 9 (.ev (.enter .blockCall))) ≠ .recursionError ∧
+    runN [init 500] ((List.replicate 80 (.ev (.enter .macroCall))) ++ [.fresh 10] ++
+      List.replicate 10 (.ev (.enter .blockCall))) = .recursionError := by
+  constructor <;> decide +kernel
+
+/-! ## Session 4: the `stacker` configuration -/
+
+/-- **the `stacker` feature as a configuration**: without it `set_recursion_limit` clamps to
+    `MAX_RECURSION`; with it the configured limit is taken as it is (regenerated expression
+    `level`) and the ACCOUNTING is unchanged — every theorem about `Reach L` holds for every `L` —,
+    while the stack is no longer one block: `do_eval` enters the interpreter loop through
+    `stacker::maybe_grow(red zone, segment)` (regenerated: 32 KiB, 1 MiB, one site, around
+    `eval_impl`).  If `stackerOK` holds for the measured bytes — an activation with its `H`
+    callback frames and the deepest leaf call fits the red zone — then at the entry of EVERY
+    activation at least that much stack is free, at any nesting depth: no overflow at any limit. -/
+theorem stacker_configuration :
+    stackerLimitExpr = "level" ∧ stackerGrowCallee = "eval_impl" ∧ stackerGrowSites = 1 ∧
+    (∀ level, setRecursionLimitCfg true level = level) ∧
+    (∀ level, setRecursionLimitCfg false level = min level maxRecursionEnv) ∧
+    (∀ level s, Reach (setRecursionLimitCfg true level) s → wsum s.acts ≤ level ∧ nativeDepth s ≤ max level 1) ∧
+    (∀ (hopBytes H leaf : Nat) (bytes : Kind → Nat), stackerOK hopBytes H leaf bytes = true →
+      ∀ free k, bytes k + hopBytes * H + leaf ≤ stackerFreeAtEntry free) := by
+  have hcfg : ∀ level, setRecursionLimitCfg true level = level := by
+    intro level; simp [setRecursionLimitCfg, show stackerLimitExpr = "level" from rfl]
+  refine ⟨rfl, rfl, rfl, hcfg, ?_, ?_, ?_⟩
+  · intro level
+    simp [setRecursionLimitCfg, (limit_clamped level).1]
+  · intro level s hs
+    rw [hcfg] at hs
+    exact ⟨(weighted_nesting hs).2.1, (native_depth_le_limit hs).1⟩
+  · intro hopBytes H leaf bytes hok free k
+    simp only [stackerOK, allKinds, List.all_cons, List.all_nil, Bool.and_true, Bool.and_eq_true,
+      decide_eq_true_eq] at hok
+    obtain ⟨⟨h1, h2, h3, h4, h5⟩, hseg⟩ := hok
+    have hk : bytes k + hopBytes * H + leaf ≤ stackerRedZone := by cases k <;> assumption
+    unfold stackerFreeAtEntry
+    split <;> omega
+
+/-- the measured unoptimised debug frames (16.5 KB) with two callback frames of 1.5 KB and 8 KB of
+    leaf calls fit the red zone; a 40 KB frame would not -/
+example : stackerOK 1500 2 8000 measuredDebugO0 = true ∧ stackerOK 0 0 0 (fun _ => 40000) = false ∧
+    setRecursionLimitCfg true 100000 = 100000 ∧ setRecursionLimitCfg false 100000 = 500 := by decide
+
+/-! ## Session 4: the deepest leaf call on top of the innermost activation -/
+
+/-- **the stack budget with leaf calls**: `budgetLeafOK` is `budgetOK` with `leaf` more bytes — the
+    deepest call the innermost activation makes that is not a re-entry (a builtin filter / test /
+    function, the formatting of a value, the construction of the error at the cut-off; measured
+    every run as the largest excursion below the interpreter of any filter / test / function of the
+    environment applied to a probing object).  If it holds, no mixture of re-entries of kinds `P`
+    with at most `H` callbacks per activation and one leaf call at the bottom overflows. -/
+theorem stack_budget_holds_leaf (stack root hopBytes H leaf : Nat) (bytes : Kind → Nat) (P : Kind → Bool)
+    (hb : budgetLeafOK stack root hopBytes H leaf bytes P = true) :
+    ∀ L, L ≤ maxRecursionEnv → ∀ (evs : List EvH) (s : StH),
+      runH (initH L) evs = .ok s → hopsWithin H (initH L) evs →
+      (∀ a ∈ s.st.acts, P a.kind = true) →
+      root + stackBytesH bytes hopBytes s + leaf < stack := by
+  intro L hL evs s hr hw hP
+  have hb' : projected root hopBytes H bytes P + leaf < stack := by simpa [budgetLeafOK] using hb
+  have hb2 : budgetOK (stack - leaf) root hopBytes H bytes P = true := by
+    simp only [budgetOK, decide_eq_true_eq]; omega
+  have := stack_budget_holds (stack - leaf) root hopBytes H bytes P hb2 L hL evs s hr hw hP
+  omega
+
+example : budgetLeafOK 2097152 5100 600 1 20000 measuredRelease (fun k => k != .blockCall && k != .superCall) = true ∧
+    budgetLeafOK 2097152 5100 0 0 40000 measuredRelease (fun _ => true) = false := by decide
+
+/-! ## The property at full strength and what is proved of it -/
+
+/-- what the model cannot exhibit: the native stack a thread has and the bytes its frames take -/
+structure Measured where
+  /-- bytes of native stack of the thread (2 MiB, 8 MiB) -/
+  stack : Nat
+  /-- bytes used before the first interpreter activation -/
+  root : Nat
+  /-- bytes of one native re-entry of each kind -/
+  bytes : Kind → Nat
+  /-- bytes of one Rust callback frame between two re-entries, and how many nest per activation -/
+  hopBytes : Nat
+  H : Nat
+  /-- bytes of the deepest leaf call -/
+  leaf : Nat
+
+/-- **C11 as stated**: for every recursion limit from 1 up to the default and every program —
+    every trace of macro / caller / include / import / block / `super()` re-entries, `with` / `for` /
+    recursive-loop frames, includes that find nothing and Rust callbacks in between (cycles of any
+    length, any mixture, any work on each frame) —
+    (1) the run never panics in the bookkeeping,
+    (2) whenever it is running, the native stack in use is strictly less than the thread has,
+    (3) a recursion that goes on (at least `limit` re-entries pending) does not complete: it ends with
+        "recursion limit exceeded", at the first re-entry whose charge does not fit,
+    (4) and the limit that is configured is never above the maximum. -/
+def C11_statement (m : Measured) : Prop :=
+  ∀ level L, L = setRecursionLimit level → ∀ evs : List EvH,
+    runH (initH L) evs ≠ .panic ∧
+    (∀ s, runH (initH L) evs = .ok s → hopsWithin m.H (initH L) evs →
+      m.root + stackBytesH m.bytes m.hopBytes s + m.leaf < m.stack) ∧
+    (max L 1 ≤ pending (erase evs) 0 →
+      runH (initH L) evs = .recursionError ∨ runH (initH L) evs = .stuck) ∧
+    L ≤ maxRecursionEnv
+
+/-- **main theorem**: the property as stated, with everything that is not proved as a named
+    hypothesis.
+    * `h_budget` — the decidable stack budget on the measured bytes (`budgetLeafOK`).  VALIDATED
+      every run: the driver evaluates this function on the two-limit measurements of every build
+      profile and stack size; it is FALSE for block calls / `super()` in the profiles of the known
+      findings (`C11_counterexample`), which is why the kinds are restricted by `P`.
+    * `h_kinds` — the program re-enters only through kinds in `P` (all kinds where the budget holds).
+    Discharged by other audited theorems, not hypotheses here: the costs are the regenerated ones
+    and state independent (`edge_cost_state_independent`, `cost_sites_unconditional`), every
+    re-entry of the crate is one of the modelled kinds (`every_reentry_charged`,
+    `reentry_sites_guarded`, `context_sites_classified`), callbacks cannot touch the depth
+    (`callbacks_depth_neutral`, `depth_ops_confined`), the limit is clamped (`limit_clamped`,
+    `env_limit_defaults`).  Outside Lean (validated differentially on every run): that the trace of
+    depth events of a real run is the trace the model assigns to the program. -/
+theorem C11_main (m : Measured) (P : Kind → Bool)
+    (h_budget : budgetLeafOK m.stack m.root m.hopBytes m.H m.leaf m.bytes P = true)
+    (h_kinds : ∀ L (evs : List EvH) (s : StH), runH (initH L) evs = .ok s → ∀ a ∈ s.st.acts, P a.kind = true) :
+    C11_statement m := by
+  intro level L hL evs
+  have hle : L ≤ maxRecursionEnv := by rw [hL]; exact (limit_clamped level).2.1
+  obtain ⟨h0, hnp, _⟩ := rust_callbacks_transparent L evs
+  refine ⟨hnp, ?_, ?_, hle⟩
+  · intro s hr hw
+    exact stack_budget_holds_leaf m.stack m.root m.hopBytes m.H m.leaf m.bytes P h_budget L hle evs s hr hw
+      (h_kinds L evs s hr)
+  · intro hp
+    rcases h0 with h | h
+    · exact Or.inr h
+    · rcases unbounded_recursion_errors L (erase evs) hp with h2 | h2
+      · rw [h2] at h
+        cases hr : runH (initH L) evs <;> rw [hr] at h <;> simp [OutH.toOut] at h
+        exact Or.inl rfl
+      · rw [h2] at h
+        cases hr : runH (initH L) evs <;> rw [hr] at h <;> simp [OutH.toOut] at h
+        exact Or.inr rfl
+
+/-- the release profile with every kind but block calls under callbacks satisfies `h_budget` -/
+example : budgetLeafOK 2097152 5100 600 1 20000 measuredRelease (fun k => k != .blockCall && k != .superCall) = true := by
+  decide
+
+/-- the accounting half of the statement needs no hypothesis at all -/
+theorem C11_main_accounting (level : Nat) (evs : List EvH) :
+    runH (initH (setRecursionLimit level)) evs ≠ .panic ∧
+    (max (setRecursionLimit level) 1 ≤ pending (erase evs) 0 →
+      runH (initH (setRecursionLimit level)) evs = .recursionError ∨
+      runH (initH (setRecursionLimit level)) evs = .stuck) ∧
+    setRecursionLimit level ≤ maxRecursionEnv := by
+  obtain ⟨h0, hnp, _⟩ := rust_callbacks_transparent (setRecursionLimit level) evs
+  refine ⟨hnp, ?_, (limit_clamped level).2.1⟩
+  intro hp
+  rcases h0 with h | h
+  · exact Or.inr h
+  · rcases unbounded_recursion_errors _ (erase evs) hp with h2 | h2
+    · rw [h2] at h
+      cases hr : runH (initH (setRecursionLimit level)) evs <;> rw [hr] at h <;> simp [OutH.toOut] at h
+      exact Or.inl rfl
+    · rw [h2] at h
+      cases hr : runH (initH (setRecursionLimit level)) evs <;> rw [hr] at h <;> simp [OutH.toOut] at h
+      exact Or.inr rfl
+
+example : runH (initH (setRecursionLimit 100000)) (List.replicate 500 (.ev (.enter .blockCall))) = .recursionError := by
+  decide +kernel
 
 end MJ.C11
